@@ -116,13 +116,15 @@ def main(argv):
         c.broken.append("build of the repo working tree / harnesses failed: " + blog[-800:])
         return c.finish(rule="build failed")
     c.proofs()
+    if c.tier == "thorough":
+        coqchk(c)
     drv, dlog = build_driver("C18")
     if drv is None:
         c.broken.append("extraction/driver build failed: " + dlog[-600:])
     hxf, hxc = hx_bin("hx_filters"), hx_bin("hx_cleaning")
     rng = c.rng
     thorough = c.tier == "thorough"
-    reps = 60 if not thorough else 600
+    reps = 150 if not thorough else 600
     tmp = tempfile.mkdtemp(prefix="c18-", dir=os.environ.get("VERIF_BUILD", "/var/tmp"))
     R = Runner(c, tmp)
     model_lines, model_expect = [], []      # driver protocol lines and (description, impl result) to compare
@@ -182,7 +184,10 @@ def main(argv):
         for r in range(reps * 2):
             data = gen_stream(rng)
             st, out, err = R.run("remove_invalid_utf8", [], data)
-            recs = py_records(data)
+            # this tool keeps well-formed lines UNCHANGED, a trailing CR included (no CR normalisation)
+            recs = data.split(b"\n")
+            if recs[-1] == b"":
+                recs.pop()
             c.count(("utf8", data), nontrivial=len(recs) > 0, bucket="remove_invalid_utf8/" + ("has-invalid" if any(not is_utf8(l) for l in recs) else "all-valid"))
             want = join([l for l in recs if is_utf8(l)])
             if st != 0 or out != want:
@@ -238,6 +243,12 @@ def main(argv):
         sub_cases += [(b"", z16 + b"\n", "line-hashing-to-0"), (b"x\n", b"a\n" + z16 + b"\nx\n" + z16 + b"\n", "line-hashing-to-0"),
                       (z16 + b"\n", b"a\n" + z16 + b"\nb\n", "line-hashing-to-0"), (b"", b"", "boundary"), (b"a\n", b"a", "boundary"),
                       (b"a\r\n", b"a\na\r\nb\n", "boundary"), (b"\n", b"\n\nx\n", "boundary")]
+        # partial collisions (hashes agree in the low / high 32 bits only): the other line must NOT be removed
+        partial = murmur_partial_collisions(250000 if not thorough else 1500000, seed=1)
+        for kind_, prs in partial.items():
+            for a_, b_ in prs:
+                sub_cases.append((a_ + b"\n", b_ + b"\n" + a_ + b"\nq\n" + b_ + b"\n", "partial-collision/" + kind_))
+                sub_cases.append((b_ + b"\n", a_ + b"\n", "partial-collision/" + kind_))
         # many keys: every growth step of the table
         big = [b"s%d" % i for i in range(30000 if not thorough else 400000)]
         sub_cases.append((join(big[::2]), join(big), "large"))
@@ -273,6 +284,10 @@ def main(argv):
         cc_cases += [(None, z16u + b"\n", "line-hashing-to-0"), (None, b"a\n " + z16u + b"\nb\n" + z16u + b" \n", "line-hashing-to-0"),
                      (z16u + b"\n", b"a\n" + z16u + b"\n", "line-hashing-to-0"), (None, b"", "boundary"), (b"", b"x", "boundary"),
                      (None, b"\xff\n\xff\nok\nok\n", "boundary"), (MAGIC + b"\n", MAGIC + b"\nq\n", "boundary")]
+        for kind_, prs in partial.items():
+            for a_, b_ in prs:
+                cc_cases.append((None, a_ + b"\n" + b_ + b"\n" + a_ + b"\n", "partial-collision/" + kind_))
+                cc_cases.append((a_ + b"\n", b_ + b"\n" + a_ + b"\n", "partial-collision/" + kind_))
         cc_results = []
         for rem, data, kind in cc_cases:
             args = [] if rem is None else [R.file("removal", rem)]
@@ -318,6 +333,8 @@ def main(argv):
                     model_lines.append("KEYS " + kv)
                     model_expect.append((None, "ok"))
                     expect("S %s %s" % (hexd(sub), hexd(data)), ("subtract_lines", "subtrahend=%r" % sub[:60], data), res[0], res[1])
+                    if len(sub) + len(data) < 3000:
+                        expect("SR %s %s" % (hexd(sub), hexd(data)), ("subtract_lines(complete model, Murmur keys from the C14 model)", "subtrahend=%r" % sub[:60], data), res[0], res[1])
                     i += 1
                 for (rem, data, kind), res in zip(cc_cases, cc_results):
                     names = klines[i][4:].split()
@@ -325,6 +342,8 @@ def main(argv):
                     model_lines.append("KEYS " + kv)
                     model_expect.append((None, "ok"))
                     expect("C %s %s" % (hexd(rem or b""), hexd(data)), ("commoncrawl_dedupe", "removal=%r" % (rem[:60] if rem else rem), data), res[0], res[1])
+                    if len(rem or b"") + len(data) < 3000:
+                        expect("CR %s %s" % (hexd(rem or b""), hexd(data)), ("commoncrawl_dedupe(complete model, Murmur keys from the C14 model)", "removal=%r" % (rem[:60] if rem else rem), data), res[0], res[1])
                     i += 1
                 # the model's UTF-8 predicate and StripSpaces against the library functions directly
                 probe = sorted(set(gen_line(rng, 5) for _ in range(400)) | set(PIECES))
@@ -339,7 +358,7 @@ def main(argv):
         letters = "abcdefghijklmnopqrstuvwxyz"
         sc_cases = []        # (args, (min_chars, run, sample, mci, minpunct, fieldspec, delim), data, kind)
 
-        def sc_args(mc=30, run=5, sample=200, mci="0.2", mp="0.01", fields="1-", delim=b"\t"):
+        def sc_args(mc=30, run=5, sample=200, mci="0.2", mp="0.01", fields="1-", delim=b"\t", scripts=(), ms="0.9"):
             a = []
             if mc != 30:
                 a += ["--min-chars", str(mc)]
@@ -355,7 +374,11 @@ def main(argv):
                 a += ["-f", fields]
             if delim != b"\t":
                 a += ["-d", delim.decode()]
-            return a, (mc, run, sample, mci, mp, fields, delim)
+            if scripts:
+                if ms != "0.9":
+                    a += ["--min-scripts", ms]
+                a += ["--scripts"] + list(scripts)          # multitoken: last
+            return a, (mc, run, sample, mci, mp, fields, delim, tuple(scripts), ms)
 
         def word_line(n, start=0):
             return "".join(letters[(start + i) % 26] for i in range(n)).encode()
@@ -370,11 +393,19 @@ def main(argv):
             a, o = sc_args(mc=3, run=run)
             lines = [b"abc" + b"x" * (run + d) + b"def" for d in (-1, 0, 1)] + [b"abc" + b" " * (run + 2) + b"defghi"] + [b"ab" + "é".encode() * (run + dd) + b"cd" for dd in (-1, 0)]
             sc_cases.append((a, o, join(lines), "character-run-threshold"))
+        # safety boundary: an otherwise acceptable line with exactly one C0 control / DEL / ill-formed sequence in it
+        a, o = sc_args(mc=3, mci="1.0")
+        bad_bits = [bytes([x]) for x in range(0, 32) if x != 10] + [b"\x7f", b"\xc3", b"\xa9", b"\xed\xa0\x80", b"\xc0\xaf", b"\xf4\x90\x80\x80", b"\xe2\x82", b"\xf0\x9f\x98"]
+        sc_cases.append((a, o, join([b"hello " + x + b" world" for x in bad_bits] + [b"hello" + x + b"world" for x in bad_bits] + [x + b"hello world" for x in bad_bits]), "safety-boundary"))
+        a, o = sc_args(mc=3, mci="1.0", delim=b",")
+        sc_cases.append((a, o, join([b"hello" + x + b"world,abc" for x in bad_bits]), "safety-boundary"))
         words = ["hello", "world", "the", "quick", "brown", "fox", "jumps", "over", "lazy", "dog", "żółw", "naïve", "Привет", "мир", "123", "4.5", "...", "!?", "€", "😀"]
         for r in range(reps):
             mc = rng.choice([1, 3, 10, 30])
             fields, delim = rng.choice([("1-", b"\t"), ("1-", b"\t"), ("2", b"\t"), ("1,3", b"\t"), ("2-", b","), ("1-2", b"\t")])
-            a, o = sc_args(mc=mc, run=rng.choice([5, 5, 3]), mci=rng.choice(["0.2", "0.5", "1.0"]), sample=rng.choice([200, 10]), fields=fields, delim=delim)
+            scripts = rng.choice([(), (), ("Latin",), ("Cyrillic",), ("Latin", "Cyrillic")])
+            a, o = sc_args(mc=mc, run=rng.choice([5, 5, 3]), mci=rng.choice(["0.2", "0.5", "1.0"]), sample=rng.choice([200, 10]), fields=fields, delim=delim,
+                           scripts=scripts, ms=rng.choice(["0.9", "0.5", "1.0"]))
             lines = []
             for _ in range(rng.randrange(1, 10)):
                 nf = rng.randrange(1, 4)
@@ -390,7 +421,7 @@ def main(argv):
                     fs.append(f)
                 lines.append(delim.join(fs) + rng.choice([b"", b"", delim, b"\r"]))
             data = b"\n".join(lines) + (b"\n" if rng.random() < 0.8 else b"")
-            sc_cases.append((a, o, data, "random"))
+            sc_cases.append((a, o, data, "random+scripts" if scripts else "random"))
         sc_results = []
         for a, o, data, kind in sc_cases:
             st, out, err = R.run("simple_cleaning", a, data)
@@ -425,9 +456,33 @@ def main(argv):
                     if (l in outl) != (longest < run):
                         c.violation("threshold: simple_cleaning --character-run %d: a line whose longest run of a non-space character is %d was %s" % (run, longest, "kept" if l in outl else "dropped"), desc)
                         break
-            if kind == "random" and rng.random() < 0.3:
+            if kind.startswith("random") and rng.random() < 0.3:
                 split_check("simple_cleaning", a, data, "simple_cleaning")
         c.sample({"tool": "simple_cleaning", "args": sc_cases[-1][0], "stdin": repr(sc_cases[-1][2][:100])})
+        # -p mode (FilterParallel with 4 files): a pair is kept iff BOTH lines are kept by the single-stream tool
+        # (metamorphic on the implementation: per-line decisions cannot depend on the other file)
+        for r in range(max(6, reps // 10)):
+            a, o = sc_args(mc=rng.choice([1, 3]), run=5, mci="1.0")
+            n = rng.randrange(1, 12)
+            l0 = [" ".join(rng.choice(words) for _ in range(rng.randrange(1, 5))).encode() if rng.random() < 0.8 else gen_line(rng, 4).replace(b"\t", b"") for _ in range(n)]
+            l1 = [" ".join(rng.choice(words) for _ in range(rng.randrange(1, 5))).encode() if rng.random() < 0.8 else gen_line(rng, 4).replace(b"\t", b"") for _ in range(n)]
+            d0, d1 = join(l0), join(l1)
+            paths = [R.file("p_in0", d0), R.file("p_in1", d1), os.path.join(tmp, "p_out0"), os.path.join(tmp, "p_out1")]
+            st, _, err = R.run("simple_cleaning", a + ["-p"] + paths, b"")
+            s0, k0, _ = R.run("simple_cleaning", a, d0)
+            s1, k1, _ = R.run("simple_cleaning", a, d1)
+            c.count(("sc-p", d0, d1), bucket="simple_cleaning/parallel-4-files")
+            if st != 0 or s0 != 0 or s1 != 0:
+                c.violation("simple_cleaning-exit: -p status %s/%s/%s" % (st, s0, s1), {"tool": "simple_cleaning -p", "in0_hex": d0.hex(), "in1_hex": d1.hex(), "args": a})
+                continue
+            kept0, kept1 = set(k0.split(b"\n")[:-1]), set(k1.split(b"\n")[:-1])
+            r0, r1 = py_records(d0), py_records(d1)
+            want = [(x, y) for x, y in zip(r0, r1) if x in kept0 and y in kept1]
+            o0, o1 = open(paths[2], "rb").read(), open(paths[3], "rb").read()
+            if o0 != join([x for x, _ in want]) or o1 != join([y for _, y in want]):
+                c.violation("context-dependence: simple_cleaning -p does not keep exactly the pairs whose two lines the single-stream tool keeps",
+                            {"tool": "simple_cleaning -p", "args": a, "in0_hex": d0.hex(), "in1_hex": d1.hex(), "out0_hex": o0.hex(), "out1_hex": o1.hex(),
+                             "how": "bin/simple_cleaning ARGS -p in0 in1 out0 out1  vs  bin/simple_cleaning ARGS < in0 and < in1"})
         if drv is not None:
             # ICU classes for every code point that occurs, from the real ICU
             cps = set()
@@ -440,8 +495,13 @@ def main(argv):
             model_expect.append((None, "ok"))
             specs = sorted(set(o[5] for _, o, _, _ in sc_cases))
             ranges = dict(zip(specs, run_lines_robust(hxc, ["R " + s for s in specs])))
+            names = sorted(set(o[7] for _, o, _, _ in sc_cases if o[7]))
+            codes = dict(zip(names, run_lines_robust(hxc, ["SN " + ",".join(n) for n in names]))) if names else {}
             for (a, o, data, kind), (st, out) in zip(sc_cases, sc_results):
-                expect("T %d %d %d %s %s %s %s %s" % (o[0], o[1], o[2], o[3], o[4], ranges[o[5]], o[6].hex(), hexd(data)), ("simple_cleaning", a, data), st, out)
+                if o[7]:
+                    expect("TS %d %d %d %s %s %s %s %s %s %s" % (o[0], o[1], o[2], o[3], o[4], o[8], codes[o[7]], ranges[o[5]], o[6].hex(), hexd(data)), ("simple_cleaning", a, data), st, out)
+                else:
+                    expect("T %d %d %d %s %s %s %s %s" % (o[0], o[1], o[2], o[3], o[4], ranges[o[5]], o[6].hex(), hexd(data)), ("simple_cleaning", a, data), st, out)
             # class level: SimpleCleaningFilter::operator() on single fields, real class vs model
             fields = sorted(set(f for _, o, data, _ in sc_cases[:40] for l in py_records(data) for f in l.split(o[6])))[:600]
             fl = ["F 5 5 200 0.2 0.01 " + hexd(f) for f in fields]
@@ -449,6 +509,18 @@ def main(argv):
             for l, r in zip(fl, fa):
                 model_lines.append(l)
                 model_expect.append((("SimpleCleaningFilter", l), r))
+            # ... and with --scripts (in_script / after_common_inherited < min_scripts, single precision, 0/0 = NaN passes)
+            for nm, cd in codes.items():
+                for ms in ("0.9", "0.5"):
+                    fs = ["FS 3 5 200 0.5 0.01 %s %s %s" % (ms, cd, hexd(f)) for f in fields[:250]]
+                    for l, r in zip(fs, run_lines_robust(hxc, fs)):
+                        model_lines.append(l)
+                        model_expect.append((("SimpleCleaningFilter --scripts " + ",".join(nm), l), r))
+
+        # ------------------------------------------------------------ memory safety (thorough): the library/class entry points under ASan/UBSan
+        if thorough and drv is not None and not c.violations:
+            asan_lines(c, "hx_filters", ["W " + " ".join(hexd(p) for p in probe), "S " + " ".join(hexd(p) for p in probe)] + klines[:200], "(IsUTF8, StripSpaces, MurmurHashNative on exact-size buffers)")
+            asan_lines(c, "hx_cleaning", fl[:400], "(SimpleCleaningFilter on exact-size buffers)")
 
         # ------------------------------------------------------------ run the models
         if drv is not None:
